@@ -1,60 +1,35 @@
 /-
-  C08 helper lemmas about the code-shaped model (`PypyrModel/Format.lean`): the base-class
-  `_vformat` on a brace-free spec, numbering flags on named fields, the per-field step and the loop
-  of `_format_keep_type` expressed through `Spec`, and the finishing rule.
+  C08 helper lemmas about the code-shaped model (`PypyrModel/Format.lean`): the per-field step and
+  the loop of `_format_keep_type` expressed through `Spec` (the base-class `_vformat` on the format
+  spec is `Spec.expandSpec`: Lemmas/C08_Nested.lean), and the finishing rule.
 -/
 import Props.Lemmas.C08_Parse
+import Props.Lemmas.C08_Nested
 
 set_option linter.unusedSimpArgs false
 
 namespace Pypyr.Format
 
-/-- A field name that is neither empty (auto-numbered) nor all digits (positional). -/
-def Named (name : List Char) : Prop := name ≠ [] ∧ isDigitStr name = false
+/-- The hypothesis under which a string is in the documented grammar: every TOP-LEVEL expression is a
+    named reference (`Named`: not empty / all-digit — those are positional arguments, of which
+    formatting with a context has none). Format specs are unrestricted: they may contain nested
+    replacement fields to any depth, with any names. -/
+def NamedTups (ts : List Tup) : Prop := ∀ t ∈ ts, ∀ f, t.field = some f → Named f.name
 
-instance (n : List Char) : Decidable (Named n) := by unfold Named; exact inferInstance
-
-/-- Hypotheses under which a field is in the documented grammar: a named reference and a spec
-    without nested replacement fields. -/
-structure GoodField (f : FieldT) : Prop where
-  named : Named f.name
-  spec : NoBrace f.spec
-
-def GoodTups (ts : List Tup) : Prop := ∀ t ∈ ts, ∀ f, t.field = some f → GoodField f
-
-/-- Boolean check of `GoodTups`, for concrete examples. -/
-def goodTupsB (ts : List Tup) : Bool :=
+/-- Boolean check of `NamedTups`, for concrete examples. -/
+def namedTupsB (ts : List Tup) : Bool :=
   ts.all fun t => match t.field with
     | none => true
-    | some f => !f.name.isEmpty && !isDigitStr f.name && f.spec.all (fun c => c ≠ '{' && c ≠ '}')
+    | some f => !f.name.isEmpty && !isDigitStr f.name
 
-theorem goodTups_of_check (ts : List Tup) (h : goodTupsB ts = true) : GoodTups ts := by
+theorem namedTups_of_check (ts : List Tup) (h : namedTupsB ts = true) : NamedTups ts := by
   intro t ht f hf
-  unfold goodTupsB at h
+  unfold namedTupsB at h
   have := List.all_eq_true.mp h t ht
-  simp only [hf, Bool.and_eq_true, Bool.not_eq_true', List.all_eq_true, decide_eq_true_eq] at this
-  obtain ⟨⟨h1, h2⟩, h3⟩ := this
-  refine ⟨⟨?_, h2⟩, ?_⟩
-  · intro hn; rw [hn] at h1; simp at h1
-  · intro c hc; have := h3 c hc; simpa using this
-
-theorem autoNumber_named (name : List Char) (auto : Option Nat) (h : Named name) :
-    autoNumber name auto = .ok (name, auto) := by
-  unfold autoNumber; simp [h.1, h.2]
-
-theorem parseTuples_plain (cs : List Char) (h : NoBrace cs) :
-    parseTuples cs = (if cs = [] then [] else [⟨cs, none⟩], none) := by
-  unfold parseTuples
-  rw [run_lit_plain _ _ _ h]; simp [finish]
-
-/-- the base class leaves a spec without nested fields as it is -/
-theorem vfmt_plain (d : Nat) (ctx : Ctx) (cs : List Char) (auto : Option Nat) (h : NoBrace cs) :
-    vfmt (d + 1) ctx cs auto = .ok (cs, auto) := by
-  unfold vfmt
-  rw [parseTuples_plain cs h]
-  by_cases hc : cs = []
-  · subst hc; simp [vLoop]
-  · simp [hc, vLoop]
+  simp only [hf, Bool.and_eq_true, Bool.not_eq_true'] at this
+  obtain ⟨h1, h2⟩ := this
+  refine ⟨?_, h2⟩
+  intro hn; rw [hn] at h1; simp at h1
 
 /-! ## `RecursionSpec` in terms of the documented flags -/
 
@@ -159,57 +134,69 @@ theorem rsOf_of_not_cond (isRec : Bool) (spec : List Char)
   unfold rsOf
   simp only [RSpec.parse_isRecursive, RSpec.parse_isFlat, h, Bool.false_eq_true, if_false]
 
-/-- the object of an expression in each of the three modes -/
-theorem fieldObj_rec (deep : Bool → Val → Except Exc Val) (ctx : Ctx) (isRec : Bool) (f : FieldT)
-    (h : (Spec.isRf f.spec || (isRec && !Spec.isFf f.spec)) = true) :
-    Spec.fieldObj deep ctx isRec f =
-      (match getField ctx f.name with
+/-- what an expression stands for in each of the three modes -/
+theorem mode_rec (deep : Bool → Val → Except Exc Val) (isRec : Bool) (conv : Option Char) (obj : Val) (spec : List Char)
+    (h : (Spec.isRf spec || (isRec && !Spec.isFf spec)) = true) :
+    Spec.applyMode deep isRec conv obj spec =
+      (match deep true obj with
        | .error e => .error e
-       | .ok obj => match deep true obj with
+       | .ok o => match convertField o conv with
          | .error e => .error e
-         | .ok o => match convertField o f.conv with
-           | .error e => .error e
-           | .ok o' => .ok (o', none)) := by
-  simp only [Spec.fieldObj, h, bind, Except.bind, pure, Except.pure]
-  cases getField ctx f.name with
+         | .ok o' => .ok (o', none, spec)) := by
+  simp only [Spec.applyMode, h, if_true, bind, Except.bind, pure, Except.pure]
+  cases deep true obj with
   | error e => rfl
-  | ok obj =>
-    simp only [if_true]
-    cases deep true obj with
-    | error e => rfl
-    | ok o => simp only []; cases hc : convertField o f.conv <;> simp [hc]
+  | ok o => simp only []; cases hc : convertField o conv <;> simp [hc]
 
 theorem isRf_isFf_excl (spec : List Char) (h : Spec.isRf spec = true) : Spec.isFf spec = false := by
   unfold Spec.isRf Spec.isFf at *
   simp only [decide_eq_true_eq] at h
   simp [h, rf_ne_ff]
 
-theorem fieldObj_ff (deep : Bool → Val → Except Exc Val) (ctx : Ctx) (isRec : Bool) (f : FieldT)
-    (h : Spec.isFf f.spec = true) :
-    Spec.fieldObj deep ctx isRec f =
-      (match getField ctx f.name with
+theorem mode_ff (deep : Bool → Val → Except Exc Val) (isRec : Bool) (conv : Option Char) (obj : Val) (spec : List Char)
+    (h : Spec.isFf spec = true) :
+    Spec.applyMode deep isRec conv obj spec =
+      (match convertField obj conv with
        | .error e => .error e
-       | .ok obj => match convertField obj f.conv with
-         | .error e => .error e
-         | .ok o => .ok (o, none)) := by
-  have hrf : Spec.isRf f.spec = false := by
-    cases h' : Spec.isRf f.spec
+       | .ok o => .ok (o, none, spec)) := by
+  have hrf : Spec.isRf spec = false := by
+    cases h' : Spec.isRf spec
     · rfl
     · have := isRf_isFf_excl _ h'; rw [h] at this; cases this
-  simp only [Spec.fieldObj, h, hrf, bind, Except.bind, pure, Except.pure]
-  cases getField ctx f.name with
-  | error e => rfl
-  | ok obj => simp only [Bool.false_eq_true, if_false, if_true]; cases hc : convertField obj f.conv <;> simp [hc]
+  simp only [Spec.applyMode, h, hrf, bind, Except.bind, pure, Except.pure]
+  simp only [Bool.false_eq_true, if_false, if_true, Bool.not_true, Bool.and_false, Bool.or_false]
+  cases hc : convertField obj conv <;> simp [hc]
 
-theorem fieldObj_plain (deep : Bool → Val → Except Exc Val) (ctx : Ctx) (isRec : Bool) (f : FieldT)
-    (h : (Spec.isRf f.spec || (isRec && !Spec.isFf f.spec)) = false) (hff : Spec.isFf f.spec = false) :
+theorem mode_plain (deep : Bool → Val → Except Exc Val) (isRec : Bool) (conv : Option Char) (obj : Val) (spec : List Char)
+    (h : (Spec.isRf spec || (isRec && !Spec.isFf spec)) = false) (hff : Spec.isFf spec = false) :
+    Spec.applyMode deep isRec conv obj spec = .ok (obj, conv, spec) := by
+  simp only [Spec.applyMode, h, Bool.false_eq_true, if_false, pure, Except.pure]
+  simp only [hff, Bool.false_eq_true, if_false]
+
+/-- `Spec.fieldObj` spelled out -/
+theorem fieldObj_eq (deep : Bool → Val → Except Exc Val) (ctx : Ctx) (isRec : Bool) (f : FieldT) :
     Spec.fieldObj deep ctx isRec f =
       (match getField ctx f.name with
        | .error e => .error e
-       | .ok obj => .ok (obj, f.conv)) := by
-  simp only [Spec.fieldObj, h, bind, Except.bind, pure, Except.pure]
-  simp only [hff]
-  cases getField ctx f.name <;> simp
+       | .ok obj => match Spec.expandSpec ctx f.spec with
+         | .error e => .error e
+         | .ok spec => Spec.applyMode deep isRec f.conv obj spec) := by
+  simp only [Spec.fieldObj, bind, Except.bind]
+  cases getField ctx f.name with
+  | error e => rfl
+  | ok obj => simp only []; cases Spec.expandSpec ctx f.spec <;> rfl
+
+theorem formatSingle_eq (deep : Bool → Val → Except Exc Val) (ctx : Ctx) (isRec : Bool) (f : FieldT) :
+    Spec.formatSingle deep ctx isRec f =
+      (match getField ctx f.name with
+       | .error e => .error e
+       | .ok obj => match Spec.expandSpec ctx f.spec with
+         | .error e => .error e
+         | .ok spec => Spec.singleObj deep isRec f.conv obj spec) := by
+  simp only [Spec.formatSingle, bind, Except.bind]
+  cases getField ctx f.name with
+  | error e => rfl
+  | ok obj => simp only []; cases Spec.expandSpec ctx f.spec <;> rfl
 
 /-- the entry a part contributes to `result` -/
 def entryOf (fi : Bool → Val → Except Exc Val) (ctx : Ctx) (isRec : Bool) : Part → Except Exc Entry
@@ -217,50 +204,47 @@ def entryOf (fi : Bool → Val → Except Exc Val) (ctx : Ctx) (isRec : Bool) : 
   | .fld f =>
     match Spec.fieldObj fi ctx isRec f with
     | .error e => .error e
-    | .ok (obj, pending) => .ok (.fld obj { rsOf isRec f.spec with conversion := pending })
+    | .ok (obj, pending, spec) => .ok (.fld obj { rsOf isRec spec with conversion := pending })
 
-theorem ktField_good (fi : Bool → Val → Except Exc Val) (ctx : Ctx) (isRec : Bool) (f : FieldT) (auto : Option Nat)
-    (h : GoodField f) :
-    ktField fi ctx isRec f auto =
+/-- the body of the loop of `_format_keep_type` on a named expression (numbering state `some 0`): lookup,
+    spec expansion by the base class, `RecursionSpec` of the EXPANDED spec, recursion, conversion -/
+theorem ktField_named (fi : Bool → Val → Except Exc Val) (ctx : Ctx) (isRec : Bool) (f : FieldT)
+    (h : Named f.name) :
+    ktField fi ctx isRec f (some 0) =
       (match entryOf fi ctx isRec (.fld f) with
        | .error e => .error e
-       | .ok en => .ok (en, auto)) := by
-  unfold ktField entryOf
-  rw [autoNumber_named _ _ h.named]
-  simp only [rsOf_eq]
-  by_cases hc : (Spec.isRf f.spec || (isRec && !Spec.isFf f.spec)) = true
-  · rw [fieldObj_rec _ _ _ _ hc]
-    cases hg : getField ctx f.name with
+       | .ok en => .ok (en, some 0)) := by
+  unfold ktField
+  rw [autoNumber_named _ _ h]
+  simp only [entryOf, fieldObj_eq]
+  cases hg : getField ctx f.name with
+  | error e => rfl
+  | ok obj =>
+    simp only []
+    rw [vfmt2_expandSpec]
+    cases hx : Spec.expandSpec ctx f.spec with
     | error e => rfl
-    | ok obj =>
-      simp only []
-      rw [vfmt_plain 1 ctx f.spec auto h.spec]
-      simp only [RSpec.parse_eq, hc, if_true]
-      cases hfi : fi true obj with
-      | error e => rfl
-      | ok o =>
-        simp only [Bool.true_or, if_true]
-        cases hcv : convertField o f.conv <;> simp [hcv]
-  · have hc' : (Spec.isRf f.spec || (isRec && !Spec.isFf f.spec)) = false := by simpa using hc
-    by_cases hff : Spec.isFf f.spec = true
-    · rw [fieldObj_ff _ _ _ _ hff]
-      cases hg : getField ctx f.name with
-      | error e => rfl
-      | ok obj =>
-        simp only []
-        rw [vfmt_plain 1 ctx f.spec auto h.spec]
-        simp only [RSpec.parse_eq, hc', Bool.false_eq_true, if_false]
-        simp only [hff, Bool.or_true, if_true]
-        cases hcv : convertField obj f.conv <;> simp [hcv, hff]
-    · have hff' : Spec.isFf f.spec = false := by simpa using hff
-      rw [fieldObj_plain _ _ _ _ hc' hff']
-      cases hg : getField ctx f.name with
-      | error e => rfl
-      | ok obj =>
-        simp only []
-        rw [vfmt_plain 1 ctx f.spec auto h.spec]
-        simp only [RSpec.parse_eq, hc', Bool.false_eq_true, if_false]
-        simp only [hff', Bool.or_false, Bool.false_eq_true, if_false]
+    | ok spec =>
+      simp only [rsOf_eq]
+      by_cases hc : (Spec.isRf spec || (isRec && !Spec.isFf spec)) = true
+      · rw [mode_rec _ _ _ _ _ hc]
+        simp only [RSpec.parse_eq, hc, if_true]
+        cases hfi : fi true obj with
+        | error e => rfl
+        | ok o =>
+          simp only [Bool.true_or, if_true]
+          cases hcv : convertField o f.conv <;> simp [hcv] <;> simpa using hc
+      · have hc' : (Spec.isRf spec || (isRec && !Spec.isFf spec)) = false := by simpa using hc
+        have hrf : Spec.isRf spec = false := by cases h' : Spec.isRf spec <;> simp_all
+        by_cases hff : Spec.isFf spec = true
+        · rw [mode_ff _ _ _ _ _ hff]
+          simp only [RSpec.parse_eq, hc', Bool.false_eq_true, if_false]
+          simp only [hff, Bool.or_true, if_true]
+          cases hcv : convertField obj f.conv <;> simp [hcv, hff, hrf]
+        · have hff' : Spec.isFf spec = false := by simpa using hff
+          rw [mode_plain _ _ _ _ _ hc' hff']
+          simp only [RSpec.parse_eq, hc', Bool.false_eq_true, if_false]
+          simp only [hff', Bool.or_false, Bool.false_eq_true, if_false]
 
 /-! ## the loop -/
 
@@ -299,39 +283,40 @@ theorem mapE_length {α β} (f : α → Except Exc β) (xs : List α) (ys : List
         simp only [hm] at h
         cases h; simp [ih zs hm]
 
-/-- on good fields the loop of `_format_keep_type` computes the entries of the parts, left to right -/
-theorem ktLoop_good (fi : Bool → Val → Except Exc Val) (ctx : Ctx) (isRec : Bool) (ts : List Tup) (auto : Option Nat)
-    (result : List Entry) (h : GoodTups ts) :
-    ktLoop fi ctx isRec ts none auto result =
+/-- on named expressions the loop of `_format_keep_type` computes the entries of the parts, left to right
+    (and the numbering state stays `some 0`) -/
+theorem ktLoop_named (fi : Bool → Val → Except Exc Val) (ctx : Ctx) (isRec : Bool) (ts : List Tup)
+    (result : List Entry) (h : NamedTups ts) :
+    ktLoop fi ctx isRec ts none (some 0) result =
       (match mapE (entryOf fi ctx isRec) (parts ts) with
        | .error e => .error e
        | .ok es => .ok (result ++ es)) := by
-  induction ts generalizing result auto with
+  induction ts generalizing result with
   | nil => simp [ktLoop, parts, mapE]
   | cons t ts ih =>
-    have hts : GoodTups ts := fun u hu f hf => h u (by simp [hu]) f hf
+    have hts : NamedTups ts := fun u hu f hf => h u (by simp [hu]) f hf
     unfold ktLoop
     simp only [parts, Tup.parts, mapE_append]
     cases hf : t.field with
     | none =>
       simp only []
-      rw [ih _ _ hts]
+      rw [ih _ hts]
       by_cases hl : t.lit = []
       · simp only [hl, if_true, mapE]
         cases mapE (entryOf fi ctx isRec) (parts ts) <;> simp
       · simp only [hl, if_false, mapE, entryOf]
         cases mapE (entryOf fi ctx isRec) (parts ts) <;> simp
     | some f =>
-      have hg : GoodField f := h t (by simp) f hf
+      have hg : Named f.name := h t (by simp) f hf
       simp only []
-      rw [ktField_good _ _ _ _ _ hg]
+      rw [ktField_named _ _ _ _ hg]
       by_cases hl : t.lit = []
       · simp only [hl, if_true, List.nil_append, mapE]
         cases he : entryOf fi ctx isRec (.fld f) with
         | error e => simp
         | ok en =>
           simp only []
-          rw [ih _ _ hts]
+          rw [ih _ hts]
           cases mapE (entryOf fi ctx isRec) (parts ts) <;> simp
       · simp only [hl, if_false, mapE, List.cons_append, List.nil_append]
         have hlit : entryOf fi ctx isRec (.lit t.lit) = .ok (.lit t.lit) := rfl
@@ -340,7 +325,7 @@ theorem ktLoop_good (fi : Bool → Val → Except Exc Val) (ctx : Ctx) (isRec : 
         | error e => simp
         | ok en =>
           simp only []
-          rw [ih _ _ hts]
+          rw [ih _ hts]
           cases mapE (entryOf fi ctx isRec) (parts ts) <;> simp
 
 /-! ## after the loop -/
@@ -385,7 +370,7 @@ theorem resolve_entries (fi : Bool → Val → Except Exc Val) (ctx : Ctx) (isRe
       cases Spec.fieldObj fi ctx isRec f with
       | error e => rfl
       | ok r =>
-        obtain ⟨obj, pending⟩ := r
+        obtain ⟨obj, pending, spec⟩ := r
         simp only []
         cases mapE (entryOf fi ctx isRec) ps <;> simp [Entry.toSum, rsOf_formatSpec]
 
@@ -438,6 +423,67 @@ theorem spec_tail (o : Val) (spec : List Char) :
   · simp [hb, pure, Except.pure]
   · cases hf : formatField o spec <;> simp [hb, hf, bind, Except.bind, pure, Except.pure]
 
+/-- a single expression, after lookup and spec expansion: the entry the loop built, finished by the
+    `len(result) == 1` rule, is the documented single-expression result — in each of the three modes -/
+theorem single_mode (fi : Bool → Val → Except Exc Val) (isRec : Bool) (conv : Option Char) (obj0 : Val)
+    (spec : List Char) :
+    (match Spec.applyMode fi isRec conv obj0 spec with
+     | .error e => (Except.error e : Except Exc Val)
+     | .ok (obj, pending, sp) => ktFinish fi [.fld obj { rsOf isRec sp with conversion := pending }]) =
+    Spec.singleObj fi isRec conv obj0 spec := by
+  have hs := rsOf_skip isRec spec
+  simp only [Spec.singleObj, spec_tail]
+  simp only [bind, Except.bind, pure, Except.pure]
+  -- the three documented modes
+  by_cases hff : Spec.isFf spec = true
+  · -- flat
+    rw [mode_ff _ _ _ _ _ hff]
+    have hs' : ((rsOf isRec spec).hasRecursed || (rsOf isRec spec).isFlat) = true := by
+      rw [hs, hff]; simp
+    simp only [hff, if_true]
+    cases hc : convertField obj0 conv with
+    | error e => rfl
+    | ok obj =>
+      simp only []
+      rw [ktFinish_single_skip _ _ _ (by simpa using hs')]
+      simp [rsOf_formatSpec]
+  · have hff' : Spec.isFf spec = false := by simpa using hff
+    by_cases hrec : (Spec.isRf spec || isRec) = true
+    · -- recursive: recursion first, then conversion
+      have hcond : (Spec.isRf spec || (isRec && !Spec.isFf spec)) = true := by
+        simp only [hff', Bool.not_false, Bool.and_true]; exact hrec
+      rw [mode_rec _ _ _ _ _ hcond]
+      have hs' : ((rsOf isRec spec).hasRecursed || (rsOf isRec spec).isFlat) = true := by
+        rw [hs]; cases h1 : Spec.isRf spec <;> cases h3 : isRec <;> simp_all
+      simp only [hff', hrec, Bool.false_eq_true, if_false]
+      cases hd : fi true obj0 with
+      | error e => rfl
+      | ok o =>
+        simp only []
+        cases hc : convertField o conv with
+        | error e => rfl
+        | ok obj =>
+          simp only []
+          rw [ktFinish_single_skip _ _ _ (by simpa using hs')]
+          simp [rsOf_formatSpec]
+    · -- default: recursive formatting with the flag off, then the conversion
+      have hrec' : (Spec.isRf spec || isRec) = false := by simpa using hrec
+      have hrf : Spec.isRf spec = false := by cases h : Spec.isRf spec <;> simp_all
+      have hir : isRec = false := by cases h : isRec <;> simp_all
+      subst hir
+      have hcond : (Spec.isRf spec || (false && !Spec.isFf spec)) = false := by simp [hrf]
+      rw [mode_plain _ _ _ _ _ hcond hff']
+      have hs' : ((rsOf false spec).hasRecursed || (rsOf false spec).isFlat) = false := by
+        rw [hs, hrf, hff']; rfl
+      simp only [hff', hrf, Bool.false_eq_true, if_false, Bool.or_false]
+      rw [ktFinish_single_go _ _ _ (by simpa using hs')]
+      simp only [rsOf_formatSpec, rsOf_isRecursive, hrf]
+      cases fi false obj0 with
+      | error e => rfl
+      | ok o =>
+        simp only []
+        cases convertField o conv <;> simp [finText]
+
 /-- the `len(result) == 1` rule and the join, against the documented cases -/
 theorem ktFinish_spec (fi : Bool → Val → Except Exc Val) (ctx : Ctx) (isRec : Bool) (ps : List Part) :
     (match mapE (entryOf fi ctx isRec) ps with
@@ -452,73 +498,22 @@ theorem ktFinish_spec (fi : Bool → Val → Except Exc Val) (ctx : Ctx) (isRec 
         | .ok es => ktFinish fi es) =
         (match Spec.fieldObj fi ctx isRec f with
          | .error e => .error e
-         | .ok (obj, pending) => ktFinish fi [.fld obj { rsOf isRec f.spec with conversion := pending }]) := by
+         | .ok (obj, pending, spec) => ktFinish fi [.fld obj { rsOf isRec spec with conversion := pending }]) := by
       simp only [mapE, entryOf]
       cases Spec.fieldObj fi ctx isRec f with
       | error e => rfl
-      | ok r => obtain ⟨obj, pending⟩ := r; rfl
+      | ok r => obtain ⟨obj, pending, spec⟩ := r; rfl
     rw [hL]
-    have hs := rsOf_skip isRec f.spec
-    simp only [Spec.format, Spec.formatSingle, spec_tail]
-    simp only [bind, Except.bind, pure, Except.pure]
-    -- the three documented modes
-    by_cases hff : Spec.isFf f.spec = true
-    · -- flat
-      rw [fieldObj_ff _ _ _ _ hff]
-      have hs' : ((rsOf isRec f.spec).hasRecursed || (rsOf isRec f.spec).isFlat) = true := by
-        rw [hs, hff]; simp
-      cases hgf : getField ctx f.name with
+    simp only [Spec.format, formatSingle_eq, fieldObj_eq]
+    cases hgf : getField ctx f.name with
+    | error e => rfl
+    | ok obj0 =>
+      simp only []
+      cases hx : Spec.expandSpec ctx f.spec with
       | error e => rfl
-      | ok obj0 =>
-        simp only [hff, if_true]
-        cases hc : convertField obj0 f.conv with
-        | error e => rfl
-        | ok obj =>
-          simp only []
-          rw [ktFinish_single_skip _ _ _ (by simpa using hs')]
-          simp [rsOf_formatSpec]
-    · have hff' : Spec.isFf f.spec = false := by simpa using hff
-      by_cases hrec : (Spec.isRf f.spec || isRec) = true
-      · -- recursive: recursion first, then conversion
-        have hcond : (Spec.isRf f.spec || (isRec && !Spec.isFf f.spec)) = true := by
-          simp only [hff', Bool.not_false, Bool.and_true]; exact hrec
-        rw [fieldObj_rec _ _ _ _ hcond]
-        have hs' : ((rsOf isRec f.spec).hasRecursed || (rsOf isRec f.spec).isFlat) = true := by
-          rw [hs]; cases h1 : Spec.isRf f.spec <;> cases h3 : isRec <;> simp_all
-        cases hgf : getField ctx f.name with
-        | error e => rfl
-        | ok obj0 =>
-          simp only [hff', hrec, Bool.false_eq_true, if_false]
-          cases hd : fi true obj0 with
-          | error e => rfl
-          | ok o =>
-            simp only []
-            cases hc : convertField o f.conv with
-            | error e => rfl
-            | ok obj =>
-              simp only []
-              rw [ktFinish_single_skip _ _ _ (by simpa using hs')]
-              simp [rsOf_formatSpec]
-      · -- default: recursive formatting with the flag off, then the conversion
-        have hrec' : (Spec.isRf f.spec || isRec) = false := by simpa using hrec
-        have hrf : Spec.isRf f.spec = false := by cases h : Spec.isRf f.spec <;> simp_all
-        have hir : isRec = false := by cases h : isRec <;> simp_all
-        subst hir
-        have hcond : (Spec.isRf f.spec || (false && !Spec.isFf f.spec)) = false := by simp [hrf]
-        rw [fieldObj_plain _ _ _ _ hcond hff']
-        have hs' : ((rsOf false f.spec).hasRecursed || (rsOf false f.spec).isFlat) = false := by
-          rw [hs, hrf, hff']; rfl
-        cases hgf : getField ctx f.name with
-        | error e => rfl
-        | ok obj0 =>
-          simp only [hff', hrf, Bool.false_eq_true, if_false, Bool.or_false]
-          rw [ktFinish_single_go _ _ _ (by simpa using hs')]
-          simp only [rsOf_formatSpec, rsOf_isRecursive, hrf]
-          cases fi false obj0 with
-          | error e => rfl
-          | ok o =>
-            simp only []
-            cases convertField o f.conv <;> simp [finText]
+      | ok spec =>
+        simp only []
+        exact single_mode fi isRec f.conv obj0 spec
   | p :: q :: rest =>
     have hfmt : Spec.format fi ctx isRec (p :: q :: rest) = Spec.formatFlat fi ctx isRec (p :: q :: rest) := by
       cases p <;> rfl
@@ -535,13 +530,13 @@ theorem ktFinish_spec (fi : Bool → Val → Except Exc Val) (ctx : Ctx) (isRec 
         cases Spec.render (List.map Entry.toSum (e1 :: e2 :: es')) <;> rfl
 
 /-- **`_format_keep_type` computes the documented result** on every string that parses and whose
-    fields are named references with specs free of nested fields. -/
+    top-level expressions are named references (format specs unrestricted: nested fields included). -/
 theorem keepType_refines_spec (fi : Bool → Val → Except Exc Val) (ctx : Ctx) (isRec : Bool) (s : List Char)
-    (ts : List Tup) (hp : parseTuples s = (ts, none)) (hg : GoodTups ts) :
+    (ts : List Tup) (hp : parseTuples s = (ts, none)) (hg : NamedTups ts) :
     keepType fi ctx isRec s = Spec.format fi ctx isRec (parts ts) := by
   unfold keepType
   simp only [hp]
-  rw [ktLoop_good _ _ _ _ _ _ hg, ← ktFinish_spec]
+  rw [ktLoop_named _ _ _ _ _ hg, ← ktFinish_spec]
   cases mapE (entryOf fi ctx isRec) (parts ts) <;> simp
 
 end Pypyr.Format
